@@ -46,6 +46,7 @@ Proof. vm_compute. split; reflexivity. Qed.
    answers.  Contexts are the state entries that the preceding stream-level steps always provide
    (PIC / FRAG / PINFO below; their maintenance across data units is the stream-level theorem above). *)
 From VC2 Require Import Model.Headers Proofs.HeadersProofs Model.DataUnit Proofs.DataUnitProofs.
+From VC2 Require Import Gen.StateRec Gen.VideoParams Proofs.HeadersBridge.
 
 (* (11.1) sequence_header, from any state whatsoever, at a byte-aligned position *)
 Theorem C02_headers_total_sequence_header : forall T lvl fuel s,
@@ -138,3 +139,26 @@ Theorem C02_data_unit_total_partial : forall T lvl fuel s,
   HeadersProofs.PIC s -> (length (Headers.r_bits (Headers.s_rd s)) < fuel)%nat ->
   HeadersProofs.verdict (DataUnit.picture_data_unit T lvl fuel s).
 Proof. exact DataUnitProofs.picture_data_unit_total. Qed.
+
+(* TIE T for (11.6.1) set_coding_parameters.  Gen/VideoParams.v is regenerated from
+   vc2_conformance/pseudocode/video_parameters.py on every run.  For ALL states and video-parameter maps:
+   whenever the hand model's set_coding_parameters step (picture_dimensions; video_depth -- the step used inside
+   Headers.sequence_header) succeeds, picture_coding_mode was present, the translated function is inside its
+   domain, and the six entries the step writes -- luma / colour-difference width, height and depth, which are
+   also exactly the state values the PictureDimensionsNotMultipleOfFrameDimensions check of sequence_header
+   reads next -- are the fields of the TRANSLATED set_coding_parameters applied to the records built from the
+   same values.  `consts_ok T` (4:2:2 = 1, 4:2:0 = 2, pictures_are_fields = 1: the enum members the translator
+   turned into literals) is evaluated on the live tables by the correspondence run. *)
+Theorem C02_coding_parameters_match_source : forall T s s',
+  HeadersBridge.consts_ok T = true ->
+  Headers.m_set_coding_parameters T s = Headers.HOk (tt, s') ->
+  exists pcm, Headers.s_st s Headers.S_picture_coding_mode = Some pcm /\
+    VideoParams.set_coding_parameters_dom (HeadersBridge.rec_state pcm) (HeadersBridge.rec_vp (Headers.s_vp s)) = true /\
+    let ps := VideoParams.set_coding_parameters (HeadersBridge.rec_state pcm) (HeadersBridge.rec_vp (Headers.s_vp s)) in
+    Headers.s_st s' Headers.S_luma_width = Some (st_luma_width ps) /\
+    Headers.s_st s' Headers.S_luma_height = Some (st_luma_height ps) /\
+    Headers.s_st s' Headers.S_color_diff_width = Some (st_color_diff_width ps) /\
+    Headers.s_st s' Headers.S_color_diff_height = Some (st_color_diff_height ps) /\
+    Headers.s_st s' Headers.S_luma_depth = Some (st_luma_depth ps) /\
+    Headers.s_st s' Headers.S_color_diff_depth = Some (st_color_diff_depth ps).
+Proof. exact HeadersBridge.coding_parameters_match_source. Qed.
